@@ -83,6 +83,7 @@ class World:
         self.mod = DenseAdditiveLinearGenomicModel(beta=numpy.array([[1.0, -2.0]]), u_misc=None, u_a=g.normal(size=(14, 2)),
                                                    trait=numpy.array(["y1", "y2"], dtype=object))
         self.ebv = g.normal(size=(8, 2))
+        self.pgbig = pop.make_pgmat(g, 320, 14, 2, codes="01", xomode="random")      # a few hundred taxa: larger work arrays
         self.w = g.uniform(0.1, 1.0, 6)
         # objects a user builds once, *before* seeding, and keeps using afterwards (also through copies)
         import copy as _copy
@@ -241,6 +242,11 @@ def component(name, big=False):
             from pybrops.model.embvmat.DenseExpectedMaximumBreedingValueMatrix import DenseExpectedMaximumBreedingValueMatrix as E
             return E.from_gmod(w.mod, w.pg, numpy.array([3, 1, 2, 4, 2, 1, 3, 2]), numpy.array([2, 5, 3, 1, 2, 4, 1, 3]))
         return f
+    if name == "G_E_Phenotyping/error-free trait, larger population":
+        def f(w, rng):
+            from pybrops.breed.prot.pt.G_E_Phenotyping import G_E_Phenotyping
+            return G_E_Phenotyping(w.mod, 2, 2, numpy.array([1.0, 0.5]), numpy.array([0.0, 0.25]), numpy.array([0.0, 2.0]), rng=rng).phenotype(w.pgbig)
+        return f
     if name == "G_E_Phenotyping/per-environment replicates":
         def f(w, rng):
             from pybrops.breed.prot.pt.G_E_Phenotyping import G_E_Phenotyping
@@ -254,7 +260,7 @@ def _samp():
     return S
 
 
-VARIANTS = [m + "/per-cross counts" for m in MATE] + ["G_E_Phenotyping/per-environment replicates"]
+VARIANTS = [m + "/per-cross counts" for m in MATE] + ["G_E_Phenotyping/per-environment replicates", "G_E_Phenotyping/error-free trait, larger population"]
 ACCEPT_RNG = MATE + ["G_E_Phenotyping"] + CFGS + ["sus", "tiled_choice", "axis_shuffle", "outcross_shuffle", "SteepestDescentSubsetHillClimber"] + GAS + \
     list(HELPERS) + VARIANTS
 # copy.deepcopy is only driven for classes that declare their own __deepcopy__ (G_E_Phenotyping shares its generator with the copy);
@@ -468,6 +474,22 @@ def case_explicit(ctx, c):
             # the same generator handed on to a second call: what the first call left in it is part of its result
             r2 = component(name)(w, rng_) if name not in GAS else None
             tail = rng_.random(3).tolist()
+            # the SAME generator object put back into the state it had before the first call (as a caller who saved
+            # bit_generator.state / get_state() would do): the call must give the first result again - anything the generator
+            # carries besides its stream state (spawn counters ...) must not matter
+            if run == 0 and not kind.endswith("zero"):
+                g2 = mk()
+                st0 = g2.bit_generator.state if hasattr(g2, "bit_generator") else g2.get_state()
+                ra = component(name)(w, g2)
+                if hasattr(g2, "bit_generator"):
+                    g2.bit_generator.state = st0
+                else:
+                    g2.set_state(st0)
+                rb = component(name)(w, g2)
+                ctx.check("C08.explicit.depends", dig(ra) == dig(rb), site_of(name), "result depends only on the supplied generator's stream state",
+                          (kind if name not in GAS else "explicit generator") + "/generator object reset to a saved state",
+                          what="%s: same generator object reset to its saved state -> different output" % site_of(name),
+                          witness={"component": name, "rng": kind, "state": k}, coords=[c, "explicit"])
         except Exception as e:
             ctx.raised(site_of(name) + " (explicit rng)", e); return
         untouched.append(u1 and gstate() == s0)
